@@ -260,8 +260,67 @@ def rule_uncg(ctx, py):
     ctx.floor(R, 5)
 
 
+def rule_pos_order(ctx, py):
+    """the list of cell positions is built in linear-index order (z outermost, x fastest), entry [x, y, z] * edge"""
+    R = "C16.POS-ORDER"
+    from .. import pysym
+    f = py.fn("coarsegrain.coarsegrain_grid")
+    order, elt = None, None
+    for n in ast.walk(f):
+        if isinstance(n, ast.Assign) and pyfe.src(n.targets[0]) == "in_node_pos" and isinstance(n.value, ast.ListComp):
+            order = [(pyfe.src(g.target), pyfe.src(g.iter)) for g in n.value.generators]
+            elt = n.value.elt
+            where = n
+    if order is None:
+        for n in ast.walk(f):
+            if isinstance(n, ast.Call) and pyfe.call_name(n) == "in_node_pos.append":
+                elt = n.args[0]
+                order = []
+                p_ = pyfe.parent(n)
+                while p_ is not None and p_ is not f:
+                    if isinstance(p_, ast.For):
+                        order.insert(0, (pyfe.src(p_.target), pyfe.src(p_.iter)))
+                    p_ = pyfe.parent(p_)
+                where = n
+    ctx.need(order is not None and elt is not None, R, "coarsegrain_grid: construction of in_node_pos not found")
+    its = [it.replace(" ", "") for _, it in order]
+    ctx.check(its == ["range(grid.d)", "range(grid.h)", "range(grid.w)"], R, where, f._qual,
+              "positions listed by loops over %s" % [it for _, it in order], "z outermost, then y, then x: entry number = linear "
+              "cell index", "the positions are listed in the order %s, which is not the linear cell index order (z, y, x): "
+              "centroids and distances are computed from the wrong cells on grids with unequal dimensions" % its)
+    if its == ["range(grid.d)", "range(grid.h)", "range(grid.w)"] and isinstance(elt, (ast.List, ast.Tuple)) and len(elt.elts) == 3:
+        z, y, x = (v for v, _ in order)
+        got = [pysym.frat(e, f) for e in elt.elts]
+        want = [pysym.frat(ast.parse("%s * grid_cell_edge" % v, mode="eval").body, f) for v in (x, y, z)]
+        ctx.check(all(g.equals(w) for g, w in zip(got, want)), R, elt, f._qual, pyfe.src(elt), "[x, y, z] * cell edge", "position "
+                  "components are not (x, y, z) times the cell edge")
+    ctx.floor(R, 1)
+
+
+def rule_units(ctx, py):
+    """the aggregated amounts are re-wrapped with the units of the state they were read from"""
+    R = "C16.UNITS"
+    f = py.fn("coarsegrain.coarsegrain_system")
+    asg = [st for st in ast.walk(f) if isinstance(st, ast.Assign) and pyfe.src(st.targets[0]) == "cgsystem.state"]
+    ctx.need(len(asg) == 1, R, "coarsegrain_system: assignment of the coarse state not found")
+    v = asg[0].value
+    name = pyfe.src(v)
+    # follow the definitions of that name backwards: the last one before the assignment must be the re-wrap
+    defs = [st for st in f.body if isinstance(st, ast.Assign) and pyfe.src(st.targets[0]) == name and st.lineno < asg[0].lineno]
+    last = defs[-1].value if defs else v
+    ok = isinstance(last, ast.Call) and pyfe.call_name(last) == "UnitArray" and len(last.args) >= 2 and \
+        pyfe.src(last.args[1]) == "system.state.units"
+    ctx.check(ok, R, defs[-1] if defs else asg[0], f._qual, "coarse state = " + pyfe.src(last)[:70], "numbers read from "
+              "system.state.value are labelled with system.state.units", "the aggregated numbers (taken from system.state.value) "
+              "reach the coarse system without the units of the state they came from: they are re-read in the system's default "
+              "amount unit")
+    ctx.floor(R, 1)
+
+
 def run(ctx):
     py = ctx.py
+    rule_pos_order(ctx, py)
+    rule_units(ctx, py)
     rule_m1(ctx, py)
     rule_valid_first(ctx, py)
     rule_kind(ctx, py)
